@@ -322,6 +322,15 @@ func runJSONFormatters(rc *RunCtx) {
 			predMode := tp.Choose(4, "pred") // 0 absent, 1 true, 2 false, 3 error
 			predErr := errors.New("injected predicate error")
 			predKeep := predMode == 3 && tp.Choose(2, "pred-error-with-true") == 0 // an error is an error, whatever the bool beside it says
+			// a predicate may look at (and add to) the event's format table like any other holder of the event
+			predTouch := tp.Choose(3, "pred-touches-format-table") == 0
+			touch := func() {
+				if predTouch {
+					e.Format(el.JSONFormat)
+					e.FormattedAs("seen-by-predicate", []byte("x"))
+					simrt.Probe("json.predicate-touched-format-table")
+				}
+			}
 			var out *el.Event
 			var err error
 			switch which {
@@ -331,11 +340,11 @@ func runJSONFormatters(rc *RunCtx) {
 				ff := &el.JSONFormatterFilter{}
 				switch predMode {
 				case 1:
-					ff.Predicate = func(interface{}) (bool, error) { return true, nil }
+					ff.Predicate = func(interface{}) (bool, error) { touch(); return true, nil }
 				case 2:
-					ff.Predicate = func(interface{}) (bool, error) { return false, nil }
+					ff.Predicate = func(interface{}) (bool, error) { touch(); return false, nil }
 				case 3:
-					ff.Predicate = func(interface{}) (bool, error) { return predKeep, predErr }
+					ff.Predicate = func(interface{}) (bool, error) { touch(); return predKeep, predErr }
 				}
 				out, err = ff.Process(context.Background(), e)
 			default:
@@ -343,11 +352,11 @@ func runJSONFormatters(rc *RunCtx) {
 				f := &el.Filter{}
 				switch predMode {
 				case 0, 1:
-					f.Predicate = func(*el.Event) (bool, error) { return true, nil }
+					f.Predicate = func(*el.Event) (bool, error) { touch(); return true, nil }
 				case 2:
-					f.Predicate = func(*el.Event) (bool, error) { return false, nil }
+					f.Predicate = func(*el.Event) (bool, error) { touch(); return false, nil }
 				case 3:
-					f.Predicate = func(*el.Event) (bool, error) { return predKeep, predErr }
+					f.Predicate = func(*el.Event) (bool, error) { touch(); return predKeep, predErr }
 				}
 				out, err = f.Process(context.Background(), e)
 				switch {
